@@ -25,7 +25,7 @@ fn banner(left: &str, right: &str) -> String {
     format!("{left:>12} {right}\n")
 }
 
-fn expected_stdout(name: &str, rr: &refvm::RefRun) -> Vec<Out> {
+pub fn expected_stdout(name: &str, rr: &refvm::RefRun) -> Vec<Out> {
     let mut v: Vec<Out> = Vec::new();
     let mut puts = |s: &str| v.extend(s.chars().map(|c| Out::Ch(c as u32)));
     puts(&banner("Assembling", &format!("target {name}")));
@@ -38,7 +38,7 @@ fn expected_stdout(name: &str, rr: &refvm::RefRun) -> Vec<Out> {
     v2
 }
 
-fn expected_code(stop: &RunStop) -> Option<i32> {
+pub fn expected_code(stop: &RunStop) -> Option<i32> {
     match stop {
         RunStop::Normal => Some(0),
         RunStop::Exit(c) => Some(*c),
@@ -90,11 +90,33 @@ pub fn judge_case(c: &Case) -> Obs {
             let dir = TempDir::new();
             dir.write("prog.asm", text.as_bytes());
             let feat: Vec<&str> = if built.stack { vec!["-f", "stack"] } else { vec![] };
-            // half of the time the destination already holds the (longer) output of an earlier compile
-            if obs.key % 2 == 0 {
-                let stale: Vec<u8> = (0..(2 * img.words.len() + 2 + 64 + (obs.key % 7) as usize)).map(|i| (i * 7 + 3) as u8).collect();
-                dir.write("prog.lc3", &stale);
-                obs.label("destination-held-an-older-longer-file");
+            // the destination may already hold the output of an earlier compile: unrelated bytes, the
+            // object file of a longer / shorter version of this program, or this very image
+            let mut image = orig.to_be_bytes().to_vec();
+            for w in &img.words {
+                image.extend(w.to_be_bytes());
+            }
+            match obs.key % 8 {
+                0 | 1 => {
+                    let stale: Vec<u8> = (0..(2 * img.words.len() + 2 + 64 + (obs.key % 7) as usize)).map(|i| (i * 7 + 3) as u8).collect();
+                    dir.write("prog.lc3", &stale);
+                    obs.label("destination-held-an-older-longer-file");
+                }
+                2 => {
+                    let mut stale = image.clone();
+                    stale.extend((0..(2 + 2 * ((obs.key >> 8) % 12) as usize)).map(|i| [0xF0u8, 0x21, 0x00, 0x00, 0xF0, 0x25][i % 6]));
+                    dir.write("prog.lc3", &stale);
+                    obs.label("destination-held-a-longer-version-of-this-program");
+                }
+                3 => {
+                    dir.write("prog.lc3", &image[..(image.len() / 4) * 2]);
+                    obs.label("destination-held-a-prefix-of-this-image");
+                }
+                4 => {
+                    dir.write("prog.lc3", &image);
+                    obs.label("destination-held-this-image");
+                }
+                _ => {}
             }
             let mut args = vec!["compile", "prog.asm", "prog.lc3"];
             args.extend(&feat);
@@ -220,7 +242,7 @@ pub fn judge_case(c: &Case) -> Obs {
 
 fn file_cases() -> impl Strategy<Value = Case> {
     let halt = [0xF0u8, 0x25];
-    prop_oneof![
+    crate::pick![
         // tiny and odd files
         3 => (prop::collection::vec(any::<u8>(), 0..8), any::<bool>()).prop_map(|(bytes, obj_ext)| Case::File { bytes, obj_ext }),
         // origin only
@@ -268,7 +290,7 @@ impl Prop for C06 {
         true
     }
     fn rule(&self) -> &'static str {
-        "(a) ProgGen programs (terminating, with output, optional input, origins incl. none) through the real binary: `lace compile` (half of the time over an older, longer file at the same path) must exit 0 and leave exactly 2(n+1) bytes = big-endian origin (0x3000 without .orig) ++ RefAsm's words; `lace run prog.lc3` and `lace run prog.asm` (same flags, same stdin) must give the same exit status and the same stdout modulo the `target <name>` banner lines, and both must equal RefVM (exit status, banner lines, program output character for character). \
+        "(a) ProgGen programs (terminating, with output, optional input, origins incl. none) through the real binary: `lace compile` (over an absent destination, an older longer file, the object file of a longer version of the same program - the new image followed by further words -, a prefix of the new image, or the image itself) must exit 0 and leave exactly 2(n+1) bytes = big-endian origin (0x3000 without .orig) ++ RefAsm's words; `lace run prog.lc3` and `lace run prog.asm` (same flags, same stdin) must give the same exit status and the same stdout modulo the `target <name>` banner lines, and both must equal RefVM (exit status, banner lines, program output character for character). \
          (b) byte strings offered as .lc3 / .obj: empty, 1 byte, odd lengths, origin only (incl. 0xFFFF, 0xFE00), images ending exactly at / one or two below / above 0x10000, ordinary images, 65,000-65,540-word images, and an enumerated grid of file sizes 131,070..262,145 bytes x origins {0,1,2,0x3000}: accepted <=> even length >= 2 and origin + n + 1 <= 0x10000; accepted files behave as RefVM says; rejected ones exit non-zero with a status other than 101, no signal, no panic message, and are not run. \
          Non-trivial: the program prints and has a label or a non-default / absent origin; or the file is within 2 words of a loader limit, odd or tiny. Distinct = hash(file bytes / source + input)."
     }
